@@ -1,7 +1,7 @@
 """Developer entry: verify one or more contracts and print obligations."""
 import sys, importlib
 sys.path.insert(0, '/verif')
-import contracts.signatures, contracts.history, contracts.config, contracts.building, contracts.daglish, contracts.selectors, contracts.diffing, contracts.tagging, contracts.serialization, contracts.materialize, contracts.flags, contracts.copying, contracts.argfactory
+import contracts.signatures, contracts.history, contracts.config, contracts.building, contracts.daglish, contracts.selectors, contracts.diffing, contracts.tagging, contracts.serialization, contracts.materialize, contracts.flags, contracts.copying, contracts.argfactory, contracts.partial
 from pyvc import contract as C, verify, loader
 for c in C.REGISTRY.values():
   if not c.abstract:
